@@ -50,7 +50,7 @@ RULE = (
     "which >= 2 items of one namespace collide under naive sanitisation (lower-casing / replacing illegal characters). "
     "Thorough tier only: one run of unified_planning/test under M-names; one evaluation = one written file judged "
     "(suite:M-names:judged); witnesses carry the test id (\"suite\": true) and are replayed by re-running that test file under "
-    "the monitor; inconclusive if the suite ran and fewer than 100 files were judged."
+    "the monitor; inconclusive if the suite ran and fewer than 150 files were judged."
 )
 ASSUMPTIONS = [
     "the PDDL 3.1 BNF / ANML manual word lists in vk/ref/names.py are the languages' keywords",
@@ -624,5 +624,5 @@ def thresholds(m):
         out.append("the PDDL writer rejected most problems")
     from vk.mon import suite as _suite
 
-    out.extend(_suite.thresholds(c, SUITE[1], 100))
+    out.extend(_suite.thresholds(c, SUITE[1], 150))
     return out
